@@ -155,10 +155,15 @@ theorem newTotal_real (p d : ℝ) :
   set t : ℝ := p * Real.pi / d with ht
   have hform : Angle.newTotal p d =
       if t < 0 then max (t + ((⌈|t| / (4 * (Real.pi / 2))⌉ : ℤ) : ℝ) * 4 * (Real.pi / 2)) 0 else t := by
+    have hraw : Angle.newRawTotal p d = t := by
+      unfold Angle.newRawTotal
+      simp only [r_mul, r_div, pi_real]
+      split
+      · rfl
+      · rw [ht]; ring
     unfold Angle.newTotal
-    simp only [r_add, r_mul, r_div, r_abs, r_max, r_ceil, r_lt, pi_real, lit_real.1, lit_real.2.2.2.2, qp_real',
-      decide_eq_true_eq]
-    rfl
+    simp only [r_add, r_mul, r_div, r_abs, r_max, r_ceil, r_lt, lit_real.1, lit_real.2.2.2.2, qp_real',
+      decide_eq_true_eq, hraw]
   rw [hform]
   by_cases h : t < 0
   · rw [if_pos h]
